@@ -82,6 +82,39 @@ func (e *exec) readOnlyCheck(src, where string) {
 		return
 	}
 	rwS, rwC, err := queryBoth(rw)
+	// windows ending / starting exactly at block boundaries (where the read-only open decides whether the WAL is needed)
+	type window struct {
+		a, b int64
+		res  qresult
+	}
+	var wins []window
+	if err == nil {
+		bounds := map[int64]bool{}
+		for _, b := range rw.Blocks() {
+			bounds[b.Meta().MaxTime] = true
+			bounds[b.Meta().MinTime] = true
+		}
+		var bl []int64
+		for x := range bounds {
+			bl = append(bl, x)
+		}
+		sort.Slice(bl, func(i, j int) bool { return bl[i] < bl[j] })
+		for len(bl) > 3 {
+			bl = append(bl[:e.rng.Intn(len(bl))], bl[e.rng.Intn(len(bl))+1:]...)
+			if len(bl) > 3 {
+				bl = bl[:len(bl)-1]
+			}
+		}
+		for _, x := range bl {
+			for _, w := range []window{{a: math.MinInt64, b: x}, {a: math.MinInt64, b: x - 1}, {a: x, b: math.MaxInt64}} {
+				if err != nil {
+					break
+				}
+				w.res, err = querySamples(rw, w.a, w.b, allMatcher)
+				wins = append(wins, w)
+			}
+		}
+	}
 	// block content of the read-write open: everything else it returns is head data (WAL, WBL, head chunk files)
 	rwBlocks := qresult{}
 	for _, b := range rw.Blocks() {
@@ -94,6 +127,7 @@ func (e *exec) readOnlyCheck(src, where string) {
 			rwBlocks[k] = append(rwBlocks[k], v...)
 		}
 	}
+	bRW := replayCutoff(rw)
 	rw.Close()
 	if err != nil {
 		e.fail("ro-vs-rw", "rw-query-failed", "%s: query of the read-write copy failed: %v", where, err)
@@ -118,6 +152,7 @@ func (e *exec) readOnlyCheck(src, where string) {
 		}
 		return false
 	}
+	winEnd := int64(math.MaxInt64) // end of the window being compared (window queries only)
 	check := func(kind string, got qresult, want qresult) bool {
 		for k, v := range want {
 			have := map[int64]tsdbmodel.Sample{}
@@ -130,6 +165,16 @@ func (e *exec) readOnlyCheck(src, where string) {
 					if debugOn {
 						os.RemoveAll("/dev/shm/verif-keep")
 						simfs.CopyTree(src, "/dev/shm/verif-keep")
+					}
+					if winEnd < bRW && e.cellOOO(k, smp.T) {
+						// listed finding: a read-only query that ends below the newest in-order block's MaxTime does not
+						// load WAL and WBL at all, although out-of-order head data can lie in that range
+						e.res.Count("tolerated:"+TagROWindowOOO, 1)
+						if e.cfg.KF == TagROWindowOOO {
+							e.fail("ro-vs-rw", "known:"+TagROWindowOOO, "%s: read-only query ending at %d (below the in-order blocks' MaxTime %d) lacks out-of-order head sample %s of series %s", where, winEnd, bRW, smp, k)
+							return false
+						}
+						continue
 					}
 					if tag := e.cellKF(k, smp.T); tag != "" {
 						// a listed finding of the write path already explains why a full WAL replay lacks this sample
@@ -182,6 +227,28 @@ func (e *exec) readOnlyCheck(src, where string) {
 	}
 	if !check("sample", roS, rwS) {
 		return
+	}
+	for _, w := range wins {
+		// one read-only handle per query (a handle links the head chunk files into its sandbox for each querier)
+		rw1, err := tsdb.OpenDBReadOnly(roDir, sandboxRoot, nil)
+		if err != nil {
+			e.fail("ro-vs-rw", "ro-open-failed", "%s: OpenDBReadOnly failed: %v", where, err)
+			return
+		}
+		got, err := querySamples(rw1, w.a, w.b, allMatcher)
+		cerr := rw1.Close()
+		if err != nil || cerr != nil {
+			e.fail("ro-vs-rw", "ro-query-failed", "%s: read-only query [%d,%d] / close failed: %v / %v", where, w.a, w.b, err, cerr)
+			return
+		}
+		e.res.Evals++
+		e.res.Count("ro_window_queries", 1)
+		winEnd = w.b
+		ok := check("sample-window", got, w.res)
+		winEnd = math.MaxInt64
+		if !ok {
+			return
+		}
 	}
 	// pre-existing files unchanged while open
 	for _, d := range simfs.DiffDigest(before, during) {
@@ -313,6 +380,9 @@ func (e *exec) readOnlyCheck(src, where string) {
 // Known findings of the read-only open (C53).
 const (
 	TagFlushOOO = "ro-flushwal-omits-out-of-order-head-data"
+	// TagROWindowOOO: DBReadOnly.loadDataAsQueryable only replays WAL/WBL when the queried range reaches the newest
+	// in-order block's MaxTime; out-of-order head data older than that is missing from narrower read-only queries.
+	TagROWindowOOO = "ro-query-ending-below-newest-block-skips-ooo-head-data"
 )
 
 // cellKF returns the known-finding tag of the model cell (series key, t), if any.
